@@ -733,6 +733,15 @@ def ssub(t, a, n):
         head = cs[0]
         tail = cs[1] if len(cs) == 2 else z3.Concat(*cs[1:])
         lh = slen(head)
+        # shortcuts that keep long concatenations from blowing up into nested ite terms (all decided syntactically,
+        # using len(..) >= 0): empty slice; slice entirely behind the head; slice entirely inside the head
+        n_s = simp(n)
+        if z3.is_int_value(n_s) and n_s.as_long() <= 0:
+            return z3.StringVal("")
+        if _decide_lt(a, lh) is False:
+            return ssub(tail, simp(a - lh), n)
+        if _decide_lt(lh, simp(a + n)) is False and _decide_lt(a, z3.IntVal(0)) is False:
+            return ssub(head, a, n)
         ta = simp(z3.If(lh - a < 0, z3.IntVal(0), zmin(lh - a, n)))
         sh = ssub(head, a, ta)
         st = ssub(tail, simp(z3.If(a - lh > 0, a - lh, z3.IntVal(0))), simp(n - ta))
